@@ -17,7 +17,7 @@ use crate::obs::guard;
 pub static DEF: PropDef = PropDef {
     id: "C17",
     level: "exploration",
-    rule: "each case: one hostile header — element type in {Binary, Utf8, UnsignedInt, raw tag (unknown id, tolerated), master} x declared size in {0, 1, M-1, M, M+1, 2M, 2^20, 2^32, 4*10^9, 4*10^9+1, 2^40, 2^56-2, random} encoded in a random vint width that can hold it x position {root, inside a known-size master (with and without oversize tolerance), inside an unknown-size master} x payload {absent, a few bytes, complete when small} x size limit M in {0, 5, 4096, 64 KiB, 1 MiB, default 4*10^9 (declared sizes <= 64 MiB only)} x initial capacity {16, 4096, 65536} x all 8 tolerance subsets — parsed by the real iterator (next() until the first error/None, then one try_recover() and next()). Around every API call the counting allocator measures peak live-heap growth and the largest single request on that thread; both must stay <= 16*max(B, capacity) + 64 KiB where, while the probed element is being handled, B = its declared size if within the limit, else 0, and afterwards (elements found in the random payload) B = M; an element within the limit must not be rejected with the size error, an element declaring more than the limit must not be returned as an item nor reach its payload (the call must end in InvalidTagSize or an earlier check's error: InvalidTagId / HierarchyError / OversizedChildElement / InvalidTagData); no panic or arithmetic overflow (overflow checks are on). Every 20 000th case instead parses one long valid stream (6 MiB quick / 24 MiB thorough) of in-limit elements of varying size and measures the growth over the whole parse against the same bound (memory creep). In the thorough tier eight curated cases are additionally replayed in a child process under `valgrind --tool=massif`; the peak of mem_heap_B over a baseline run (same setup, no parse) must satisfy the same bound — an oracle that does not depend on the harness allocator (skipped and counted if valgrind is unavailable). distinct = (type, size class relative to M, width, position, limit, capacity, tolerance); non-trivial iff declared size > capacity.",
+    rule: "each case: one hostile header — element type in {Binary, Utf8, UnsignedInt, raw tag (unknown id of 2, 5, 6, 7 or 8 bytes; tolerated or not), master} x declared size in {0, 1, M-1, M, M+1, 2M, 2^20, 2^32, 4*10^9, 4*10^9+1, 2^40, 2^56-2, random} encoded in a random vint width that can hold it x position {root, inside a known-size master (with and without oversize tolerance), inside an unknown-size master} x payload {absent, a few bytes, complete when small} x size limit M in {0, 5, 4096, 64 KiB, 1 MiB, default 4*10^9 (declared sizes <= 64 MiB only)} x initial capacity {16, 4096, 65536} x all 8 tolerance subsets — parsed by the real iterator (next() until the first error/None, then one try_recover() and next()). Around every API call the counting allocator measures peak live-heap growth and the largest single request on that thread; both must stay <= 16*max(B, capacity) + 64 KiB where, while the probed element is being handled, B = its declared size if within the limit, else 0, and afterwards (elements found in the random payload) B = M; an element within the limit must not be rejected with the size error, an element declaring more than the limit must not be returned as an item nor reach its payload (the call must end in InvalidTagSize or an earlier check's error: InvalidTagId / HierarchyError / OversizedChildElement / InvalidTagData); no panic or arithmetic overflow (overflow checks are on). Every 400th case is a hostile header after a recovery: 200-400 KiB of in-limit root elements, then a small known-size master with a leaf, 1-12 junk bytes (skipped with try_recover()), a leaf and a child declaring more than the bound but less than the stream offset; that child must be rejected by a header check and every call must stay within 16*max(M, capacity) + 64 KiB. Every 20 000th case instead parses one long valid stream (6 MiB quick / 24 MiB thorough) of in-limit elements of varying size and measures the growth over the whole parse against the same bound (memory creep). In the thorough tier eight curated cases are additionally replayed in a child process under `valgrind --tool=massif`; the peak of mem_heap_B over a baseline run (same setup, no parse) must satisfy the same bound — an oracle that does not depend on the harness allocator (skipped and counted if valgrind is unavailable). distinct = (type, size class relative to M, width, position, limit, capacity, tolerance); non-trivial iff declared size > capacity.",
     assumptions: &["the constant 16 is deliberately loose (today's worst legitimate ratio is about 3: old buffer + grown buffer + the payload copy handed to the tag); the faults this property is about are off by 10^3-10^12", "with the limit removed (None) nothing is promised; not exercised", "default-limit acceptance is only exercised up to 64 MiB declared"],
     cases_quick: 800_000,
     cases_thorough: 8_000_000,
@@ -119,7 +119,137 @@ fn run_long_stream(c: &mut Case) {
     c.nontrivial(mix(hash_str("long-stream"), mix(m as u64, capacity as u64)));
 }
 
+/// A hostile header *after* a recovery far into the stream: 200-400 KB of in-limit root elements, then a small known-size
+/// master holding a leaf, a few junk bytes, a leaf, and a child that declares more than the limit (and more than the
+/// memory bound) but less than the stream offset reached. The junk is skipped with try_recover(); whatever bookkeeping
+/// the recovery did, the hostile child must be rejected by a header check and no call may exceed the memory bound.
+fn run_after_recovery(c: &mut Case) {
+    let spec = c17_spec();
+    spec.install();
+    let m: usize = *c.rng.pick(&[512usize, 4096]);
+    let capacity: usize = *c.rng.pick(&[16usize, 64, 4096]);
+    let allow = *c.rng.pick(&[0u8, 0, ALLOW_IDS, 3, 5, 7]);
+    let bound: u64 = 16 * (m.max(capacity) as u64) + SLACK;
+    let prefix_total = c.rng.urange(200 << 10, 400 << 10);
+    let mut bytes: Vec<u8> = Vec::with_capacity(prefix_total + 8192);
+    let mut n_prefix = 0usize;
+    while bytes.len() < prefix_total {
+        let len = c.rng.urange(m / 4, m);
+        bytes.extend(id_bytes(B_ID));
+        bytes.extend(enc_vint(len as u64, crate::refcodec::min_size_width(len as u64).unwrap()));
+        let fill = c.rng.byte();
+        bytes.resize(bytes.len() + len, fill);
+        n_prefix += 1;
+    }
+    let declared: u64 = c.rng.urange(bound as usize + 1, bytes.len() - 1) as u64;
+    let leaf = |payload: &[u8]| {
+        let mut v = id_bytes(CB_ID);
+        v.extend(enc_vint(payload.len() as u64, 1));
+        v.extend_from_slice(payload);
+        v
+    };
+    let junk_len = c.rng.urange(1, 12);
+    let mut content: Vec<u8> = Vec::new();
+    content.extend(leaf(&[1; 10]));
+    content.extend(std::iter::repeat(0u8).take(junk_len));
+    content.extend(leaf(&[2; 10]));
+    let hostile_rel = content.len();
+    content.extend(id_bytes(CB_ID));
+    let hw = c.rng.urange(crate::refcodec::min_size_width(declared).unwrap(), 8);
+    content.extend(enc_vint(declared, hw));
+    let tail_len = c.rng.urange(0, 40);
+    content.extend(c.rng.bytes(tail_len));
+    let master_off = bytes.len();
+    bytes.extend(id_bytes(M_ID));
+    bytes.extend(enc_vint(content.len() as u64, 2));
+    let hostile_off = bytes.len() + hostile_rel;
+    bytes.extend(content);
+    let cfg = RCfg { allow, buffered: vec![], capacity: Some(capacity), max_size: MaxSz::Set(Some(m)), eof_end: true };
+    let mut src = if c.rng.chance(1, 2) { ScriptedRead::new(bytes.clone()).with_chunks(vec![], c.rng.urange(100, 70_000)) } else { ScriptedRead::new(bytes.clone()) };
+    src.keep_log = false;
+    let mut it = make_iter(src, &cfg);
+    let wit = |msg: &str, extra: J| J::obj().set("scenario", J::s("hostile header after a recovery")).set("stream_bytes", J::u(bytes.len())).set("prefix_elements", J::u(n_prefix)).set("master_offset", J::u(master_off)).set("junk_bytes", J::u(junk_len)).set("hostile_child_offset", J::u(hostile_off)).set("declared_size", J::u(declared)).set("limit_M", J::u(m)).set("config", cfg.to_json()).set("allowed_growth_bytes", J::u(bound)).set("problem", J::s(msg)).set("detail", extra);
+    let mut recovered = 0usize;
+    let mut pending_recover = false;
+    let mut last_err: Option<ErrRec> = None;
+    for _ in 0..n_prefix + 24 {
+        it.get_mut().begin_api_call();
+        let recover = pending_recover;
+        let (raw, win) = measure(|| {
+            guard(1 << 30, || {
+                if recover {
+                    it.try_recover().map(|_| None)
+                } else {
+                    match it.next() {
+                        None => Ok(None),
+                        Some(Ok(t)) => Ok(Some(t)),
+                        Some(Err(e)) => Err(e),
+                    }
+                }
+            })
+        });
+        let res = raw.map(|r| r.map(|o| o.map(|t| Item::from_tag(&t))).map_err(|e| ErrRec::from(&e)));
+        c.eval();
+        c.count("api_calls_measured");
+        if win.peak > bound || win.max_request > bound {
+            c.violation(
+                format!("C17/memory-bound/after-recovery/{}", if recover { "try_recover" } else { "next" }),
+                format!("{} grew the heap by {} bytes (largest single request {}) — limit {}, capacity {}, allowed {}; a child declaring {} bytes follows a recovery at offset ~{}", if recover { "try_recover()" } else { "next()" }, win.peak, win.max_request, m, capacity, bound, declared, master_off),
+                wit("heap growth above the bound", J::obj().set("peak_growth", J::u(win.peak)).set("largest_request", J::u(win.max_request))),
+            );
+            return;
+        }
+        pending_recover = false;
+        match res {
+            Err(cg) => {
+                c.violation(format!("C17/after-recovery/{}", cg.sig()), cg.text(), wit("panic / overflow / budget", J::Null));
+                return;
+            }
+            Ok(Ok(Some(item))) => {
+                if it.last_emitted_tag_offset() == hostile_off && !item.is_end() {
+                    c.violation("C17/over-limit-element-emitted/after-recovery", format!("the child declaring {} bytes (limit {}) was emitted as {}", declared, m, item.short()), wit("element above the limit not rejected", J::Null));
+                    return;
+                }
+            }
+            Ok(Ok(None)) => {
+                if !recover {
+                    break;
+                }
+                recovered += 1;
+            }
+            Ok(Err(e)) => {
+                if recover {
+                    break; // recovery failed (end of input): nothing more to observe
+                }
+                if e.pos().map(|p| p == hostile_off).unwrap_or(false) {
+                    let ok = matches!(e, ErrRec::InvalidTagSize { .. } | ErrRec::OversizedChild { .. });
+                    if !ok {
+                        c.violation(format!("C17/over-limit-not-rejected-by-header-check/{}/after-recovery", e.kind()), format!("the child declaring {} > limit {} ended in {} instead of a header rejection", declared, m, e.short()), wit("payload of an over-limit element was attempted", J::Null));
+                        return;
+                    }
+                    c.count("over_limit_headers");
+                    c.count("hostile_headers_after_recovery_rejected");
+                    last_err = Some(e);
+                    break;
+                }
+                last_err = Some(e);
+                if recovered >= 3 {
+                    break;
+                }
+                pending_recover = true;
+            }
+        }
+    }
+    let _ = last_err;
+    c.count("after_recovery_scenarios");
+    c.nontrivial(mix(hash_str("after-recovery"), mix(m as u64, mix(capacity as u64, allow as u64))));
+}
+
 fn run(c: &mut Case) {
+    if c.idx % 400 == 13 {
+        run_after_recovery(c);
+        return;
+    }
     if c.idx == 3 && c.tier == crate::runner::Tier::Thorough {
         // independent second opinion on the allocator oracle: a handful of curated cases under valgrind massif
         run_massif_stage(c);
@@ -178,7 +308,7 @@ fn run(c: &mut Case) {
         (0, false) => (CB_ID, "binary"),
         (1, true) => (S_ID, "utf8"),
         (1, false) => (CS_ID, "utf8"),
-        (2, _) => (0x7ABC, "raw"),
+        (2, _) => (*c.rng.pick(&[0x7ABCu64, 0x7ABC, 0x08_1234_5678, 0x04_1122_3344_55, 0x02_1122_3344_5566, 0x01_1122_3344_5566_77]), "raw"),
         (3, true) => (M_ID, "master"),
         (3, false) => (CM_ID, "master"),
         (_, true) => (U_ID, "uint"),
